@@ -143,6 +143,7 @@ class Ctx:
         self.call_log: List[Any] = []  # calls made through contracts on this path, in order (ghost; see speclib.CALLS)
         self.top_contract = None
         self.top_ns = None
+        self.ysym = None  # symbolic sequence of yields (generators with yields inside invariant loops)
         self.entry_measure = None
 
     # ---- fresh symbols
@@ -966,11 +967,11 @@ class Engine:
             self.exec_block(ctx, finfo.node.body, env)
             result = None
             if finfo.is_generator:
-                result = V.GeneratorV(ctx.yielded)
+                result = ctx.ysym if getattr(ctx, "ysym", None) is not None else V.GeneratorV(ctx.yielded)
         except ReturnSig as r:
             result = r.value
             if finfo.is_generator:
-                result = V.GeneratorV(ctx.yielded)
+                result = ctx.ysym if getattr(ctx, "ysym", None) is not None else V.GeneratorV(ctx.yielded)
         except PyRaise as pr:
             if res is not None:
                 res.raising_paths += 1
@@ -1734,7 +1735,10 @@ class Engine:
 
     def ex_Yield(self, ctx, e, env):
         v = self.eval(ctx, e.value, env) if e.value is not None else None
-        ctx.yielded.append(v)
+        if getattr(ctx, "ysym", None) is not None:
+            ctx.ysym.push(v)
+        else:
+            ctx.yielded.append(v)
         return None
 
     def ex_Call(self, ctx, e, env):
